@@ -259,25 +259,40 @@ func Scenarios(t *Target) []Case {
 		add(Case{Label: "needsopen-writer", Mode: "W", Calls: [][]Ent{lm}, Chunk: 100, MinChunk: 100000, NeedsOpen: true})
 		add(Case{Label: "needsopen-off-writer", Mode: "W", Calls: [][]Ent{lm}, Chunk: 100, MinChunk: 100000})
 	}
-	// the candidate finding: MinChunkSize > 0 and a second AppendTar call
+	// the stream of the candidate findings
 	add(Case{Label: "finding-two-calls-minchunk", Mode: "W", Finding: true, MinChunk: 1000, Chunk: 0,
 		Calls: [][]Ent{{reg("a", pat(10, 1)), reg("b", pat(10, 2))}, {reg("c", pat(10, 3)), reg("d", pat(10, 4))}}})
+	add(Case{Label: "finding-two-calls-minchunk-lossless", Mode: "L", Finding: true, MinChunk: 500, Chunk: 64,
+		Calls: [][]Ent{{reg("a", pat(100, 1))}, {reg("c", pat(200, 3)), reg("d", pat(10, 4))}}})
+	add(Case{Label: "finding-verifytoc-minchunk-build", Mode: "B", Finding: true, MinChunk: 5000, Chunk: 100, Workers: 2,
+		Calls: [][]Ent{{reg("a", pat(250, 1)), reg("b", pat(10, 2))}}})
+	add(Case{Label: "finding-verifytoc-minchunk-writer", Mode: "W", Finding: true, MinChunk: 5000, Chunk: 100,
+		Calls: [][]Ent{{reg("a", pat(250, 1)), reg("b", pat(10, 2))}}})
+	add(Case{Label: "finding-unpack-empty-writer", Mode: "W", Finding: true, Chunk: 100, Calls: [][]Ent{{}}})
+	add(Case{Label: "finding-unpack-no-calls", Mode: "W", Finding: true, Chunk: 100, Calls: [][]Ent{}})
 	return out
 }
 
 var xattrKeys = []string{"user.a", "security.selinux", "trusted.overlay.opaque"}
 
-// Generate makes one random case.
-func Generate(r *verifutil.Rand, t *Target, i int) Case {
+// Generate makes one random case.  findings: force the shape of the candidate finding (several
+// AppendTar calls with MinChunkSize > 0); the main stream never has that shape.
+func Generate(r *verifutil.Rand, t *Target, i int, findings bool) Case {
 	c := Case{Label: fmt.Sprintf("gen%d", i)}
 	c.Mode = []string{"B", "B", "B", "W", "W", "L"}[r.Intn(6)]
+	if findings {
+		c.Mode = []string{"W", "W", "L"}[r.Intn(3)]
+	}
 	c.Chunk = []int{0, 1, 3, 7, 64, 100, 512, 1000, 4096}[r.Pick(1, 1, 2, 3, 4, 4, 4, 3, 2)]
 	ec := c.Chunk
 	if ec <= 0 {
 		ec = 2000
 	}
-	if r.Intn(5) < 2 {
+	if r.Intn(5) < 2 || findings {
 		c.MinChunk = []int{1, ec / 2, ec, 3 * ec, 10000, 1 << 20}[r.Intn(6)]
+		if c.MinChunk == 0 {
+			c.MinChunk = 1
+		}
 	}
 	c.Level = []int{-2, -1, 0, 1, 6, 9}[r.Intn(6)]
 	c.Workers = 1 + r.Intn(4)
@@ -286,12 +301,16 @@ func Generate(r *verifutil.Rand, t *Target, i int) Case {
 	}
 	c.Format = []tar.Format{tar.FormatUnknown, tar.FormatPAX, tar.FormatGNU, tar.FormatUSTAR}[r.Intn(4)]
 	ncalls := 1
-	if c.Mode != "B" && r.Intn(4) == 0 {
+	if c.Mode != "B" && (r.Intn(4) == 0 || findings) {
 		ncalls = 2 + r.Intn(2)
 	}
 	if ncalls > 1 && c.MinChunk > 0 {
-		c.Finding = true
-		c.Label = fmt.Sprintf("finding-gen%d", i)
+		if findings {
+			c.Finding = true
+			c.Label = fmt.Sprintf("finding-gen%d", i)
+		} else {
+			c.MinChunk = 0
+		}
 	}
 	sizes := boundarySizes(ec)
 	var names []string // regular files so far (hardlink targets, prioritized candidates)
